@@ -213,7 +213,11 @@ pub fn specs() -> Vec<PropSpec> {
                 by a process crash before every storage or file-system \
                 mutation k (all, or a seeded sample of 40), which \
                 includes every instant at which a task is pending or \
-                exactly one is running. After restart all due tasks are \
+                exactly one is running; the same cut points are run \
+                with mutation k failing with an I/O error and the \
+                instance staying up (then the clock moves on by the \
+                retry interval of an hour before the judgement), and \
+                half of them with a second crash after the restart. After restart all due tasks are \
                 run (the request is NOT submitted again) and then: no \
                 task is left in the running state, every recurring task \
                 and one parent synchronisation per CA and parent is \
